@@ -132,7 +132,7 @@ def _perform(actions, maxcache):
             # the caller owns what it was handed: scribble over every returned container that is neither
             # the target's / scope's nor part of the public value of the spec (must not show in later calls)
             if ctx.local.last_result is not None:
-                owned = set()
+                owned = set(builder.user_ids)
                 c06_zoo._reachable(bc.target, owned)
                 c06_zoo._reachable(bc.scope, owned)
                 c06_zoo._reachable((bc.spec, bc.specobj), owned, public_only=True)
@@ -233,7 +233,7 @@ def map_dump(module, constants, wk, procs=None):
     scratch = tempfile.mkdtemp(prefix='glomverif_c06_')
     try:
         path = os.path.join(scratch, 'states')
-        res = vlib.run_tlc(module, constants=constants, extra=('-dump', path), heap='8g', timeout=3000)
+        res = vlib.run_tlc(module, constants=constants, extra=('-dump', path), heap=_CFG.get('heap', '3g'), timeout=3000)
         vlib.tlc_must_pass(res, module)
         pools = [j['pool'] for j in res['json'] if 'pool' in j]
         if not pools:
@@ -455,7 +455,7 @@ def subprocess_crosscheck(check, pool, oracle, n):
     jobs = [(c, star, regs) for c in pool for star in (True, False) for regs in ([], ['Aget1'])][:n]
     for call, star, regs in jobs:
         p = subprocess.run([sys.executable, '-c', _SUB % here], input=json.dumps(dict(call=call, star=star, regs=regs)),
-                           capture_output=True, text=True, env=env, timeout=120)
+                           capture_output=True, text=True, env=env, timeout=1800)
         if p.returncode != 0:
             raise vlib.MachineryError('fresh subprocess failed: ' + p.stderr[-800:])
         got = json.loads(p.stdout.strip().splitlines()[-1])
@@ -577,6 +577,7 @@ def _main(check, tier, seed):
                             dict(PoolFrom=11, PoolSize=22, MaxHist=3, MaxToggles=1, MaxRegs=1),
                             dict(PoolFrom=1, PoolSize=9, MaxHist=4, MaxToggles=1, MaxRegs=1)]}[tier]
     rows, drift, results = [], [], []
+    _CFG['heap'] = {'quick': '3g', 'thorough': '8g'}[tier]     # (a modest heap: the machine is shared)
     for consts in configs:
         _CFG.update(maxhist=consts['MaxHist'], maxcache=1, rows_per_chunk=40)
         res, part = map_dump('MC_C06', dict(consts, Mutant='""'), worker)
@@ -616,7 +617,7 @@ def _main(check, tier, seed):
     check.extra['mechanism_drift'] = drift[:5]
     check.extra['mechanism_drift_count'] = len(drift)
     # vacuity: the same histories at the finest grain; every step kind and branch must occur
-    vres = vlib.run_tlc('MC_C06', cfg='MC_C06_fine', constants=dict(PoolFrom=1, PoolSize=14, MaxHist=2, MaxToggles=2, MaxRegs=2, Mutant='""'), heap='6g')
+    vres = vlib.run_tlc('MC_C06', cfg='MC_C06_fine', constants=dict(PoolFrom=1, PoolSize=14, MaxHist=2, MaxToggles=2, MaxRegs=2, Mutant='""'), heap='3g')
     vlib.tlc_must_pass(vres, 'MC_C06 fine-grained')
     check.add_tlc(vres, 'MC_C06 fine-grained (vacuity)')
     cov = B.mechanism_coverage([j['hist'] for j in vres['json'] if 'hist' in j])
